@@ -516,6 +516,10 @@ func c19Round3(c *Ctx) {
 	}
 	c.runControl("R19h pooled memory also returned", "hasher).release", poolEscapes)
 
+	c.Rule("R19j", "the OPC signature declares namespaces only as default namespaces on the elements that use them", 3)
+	for _, f := range opcNamespaceDecls(p) {
+		c.Check(f.OK, "R19j", f.Key, f.Pos, "default namespace on the element itself", f.Detail)
+	}
 	c.Rule("R19i", "issuerKeyHash is computed from the issuer's public key, not copied from a certificate extension", 1)
 	fn := p.Func("lib/appmanifest.PublisherIdentity")
 	if fn == nil {
